@@ -92,6 +92,17 @@ def field_class(desc):
     return d
 
 
+_REPORTS = {}
+
+
+def crash_report_cached(sig, exe, args, cwd=None):
+    """at most 3 second runs per (mode, outcome, field class, model verdict); later cases reuse the last report"""
+    seen = _REPORTS.setdefault(sig, [])
+    if len(seen) < 3:
+        seen.append(crash_report(exe, args, cwd))
+    return seen[-1]
+
+
 def crash_report(exe, args, cwd=None, timeout=WATCHDOG + 5):
     """second run of a crashing case, stderr kept -> (frames [(fn, where)], ubsan message or None)"""
     e = dict(os.environ); e.update(vlib.ASAN_ENV)
@@ -128,7 +139,13 @@ def lib_frames(frames):
     return out
 
 
-def root_cause(backend, mode, outcome, lines, frames, umsg, fclass):
+SITE_KEY = {"OOBW1": KNOWN_DEFECT_KEY, "OOBR1": "adf:num-sub-nodes-exceeds-entries-field", "OOBW2": "adf:data-chunk-table-count-vs-chunk-length",
+            "OOBW3": "adf:link-payload-longer-than-buffer", "OOBW4": "adf:link-datatype-more-than-one-token",
+            "OOBR5": "adf:node-header-tag-scan-past-buffer", "OOBW8": "adf:link-file-part-longer-than-chase-buffer",
+            "OutOfFuel": "adf:link-path-through-itself-unbounded-recursion"}
+
+
+def root_cause(backend, mode, outcome, lines, frames, umsg, fclass, mverdict=None):
     """stable finding key: the root cause where a rule recognises it, else <backend>:<kind>@<function>:<field class>.
     Listing one key as known must not hide a different defect with the same crash site: the fall-back key therefore
     carries the class of the mutated field, and the rules look at the whole stack, not at the top frame only."""
@@ -143,6 +160,8 @@ def root_cause(backend, mode, outcome, lines, frames, umsg, fclass):
         if fn == "ADFI_read_file_header":
             return "adf:file-header-format-letter-undefined-assert"
         return "%s:assert@%s:%s" % (backend, fn, fclass)
+    if any(l == "libexit-alloc" for l in lines):
+        return "mll:exit-on-allocation-failure"          # cgi_malloc / cgi_realloc call exit(1)
     if any(l == "libexit" for l in lines) or outcome.startswith("exit:"):
         return "%s:library-exit@%s:%s" % (backend, mode, fclass)
     if outcome.startswith("asan:"):
@@ -173,6 +192,8 @@ def root_cause(backend, mode, outcome, lines, frames, umsg, fclass):
                 return "adf:link-payload-longer-than-buffer"
             if kind == "stack-buffer-overflow" and top in ("ADF_Get_Link_Path", "ADF_Link_Size"):
                 return "adf:link-file-part-longer-than-chase-buffer"
+        if kind.startswith("negative-size-param") and "ADF_Read_All_Data" in S:
+            return "adf:data-chunk-negative-length"
         if kind.startswith("ubsan-left-shift") and S & {"ADFI_convert_integers", "ADFI_convert_number_format"}:
             return "adf:file-header-format-letter-negative-shift"
         if top == "ADFI_stridx_c" and "ADFI_read_node_header" in S:
@@ -193,6 +214,8 @@ def root_cause(backend, mode, outcome, lines, frames, umsg, fclass):
                 return "adf:compound-datatype-read-into-2-char-typed-buffer"
             if fclass in ("fileheader.sizeof", "node.header-sizeof-int-dim-halved"):
                 return "adf:header-type-size-vs-untranslated-copy"
+        if not fns and mode == "walk" and mverdict in SITE_KEY and kind in ("stack-buffer-overflow", "stack-overflow", "SEGV"):
+            return SITE_KEY[mverdict]                   # the stack was smashed: the model names the buffer
     return "%s:%s@%s:%s" % (backend, kind, top, fclass)
 
 
@@ -523,6 +546,8 @@ def compare_walk(mlines, ilines, outcome):
         if outcome == "ok" and m == i:
             return "same", None
         d = vlib.first_divergence(m, i)
+        if d and d[2] and d[2].endswith(" err 25") and outcome == "ok":
+            return "unmodelled", "malloc"          # MEMORY_ALLOCATION_FAILED: whether a huge malloc succeeds is not modelled
         return "DIVERGE", {"line": d[0] if d else None, "model": d[1] if d else None, "impl": d[2] if d else None, "outcome": outcome}
     k, what = abn
     if i[:k] != m[:k]:
@@ -588,8 +613,13 @@ def run(ck):
             path = os.path.join(cwd, "crash_%d_%s.%s" % (idx, mode, "adf" if backend == "adf" else "hdf"))
             open(path, "wb").write(data)
             exe, args = impl.exe_args(mode, path)
-            frames, umsg = crash_report(exe, args, cwd) if outcome != "timeout" else ([], None)
-            key = force_key or root_cause(backend, mode, outcome, lines, frames, umsg, field_class(desc))
+            mv = ((extra or {}).get("model_verdict") or [""])[0]
+            mv = ABN.search(mv).group(1) if ABN.search(mv) else None
+            if outcome == "timeout" or force_key:
+                frames, umsg = ([], None) if outcome == "timeout" else crash_report(exe, args, cwd)
+            else:
+                frames, umsg = crash_report_cached((backend, mode, outcome, field_class(desc), mv), exe, args, cwd)
+            key = force_key or root_cause(backend, mode, outcome, lines, frames, umsg, field_class(desc), mv)
             os.unlink(path)
             rp = {"what": desc, "base_file": base, "backend": backend, "mode": mode, "outcome": outcome, "last_lines": lines[-3:],
                   "library_frames": lib_frames(frames)[:8],
